@@ -4,6 +4,7 @@ mod driver;
 mod pools;
 mod props;
 mod rng;
+mod scripted;
 mod wire;
 
 use driver::Driver;
